@@ -550,7 +550,7 @@ func checkC15(c *ctx) {
 	var impl []string
 	nCases := 70
 	if c.thorough() {
-		nCases = 2000
+		nCases = 700
 	}
 	count := func(cs *c04Case) {
 		nt := false
